@@ -11,14 +11,16 @@
 (***************************************************************************)
 EXTENDS PinStoreProps
 
-CONSTANTS MaxLives, MaxFaults, MaxCrashes, InitFiles
+CONSTANTS MaxLives, MaxFaults, MaxCrashes, InitFiles, MaxReboots
 
-VARIABLES file, dev, mem, newp, pc, force, lives, faults, crashes, fresh, obs, bad, hist
-vars == <<file, dev, mem, newp, pc, force, lives, faults, crashes, fresh, obs, bad, hist>>
+VARIABLES file, dev, mem, newp, pc, force, lives, faults, crashes, fresh, obs, bad, hist,
+          recon,    \* the bring-up in progress is a reconnection made while serving (ensure_connection)
+          reboots
+vars == <<file, dev, mem, newp, pc, force, lives, faults, crashes, fresh, obs, bad, hist, recon, reboots>>
 
 Init == /\ file \in InitFiles /\ dev = Default /\ mem = NoPin /\ newp = NoPin /\ pc = "boot"
         /\ force = FALSE /\ lives = 1 /\ faults = 0 /\ crashes = 0 /\ fresh = 1
-        /\ obs = InitObs(file, dev) /\ bad = "" /\ hist = <<>>
+        /\ obs = InitObs(file, dev) /\ bad = "" /\ hist = <<>> /\ recon = FALSE /\ reboots = 0
 
 \* every Sys/Env step emits one event carrying the durable state after it
 Emit(e, f, d) ==
@@ -35,17 +37,21 @@ Boot == /\ pc = "boot"
              /\ force' = fc
              /\ Emit([E0("start") EXCEPT !.force = fc], file, dev)
              /\ H([a |-> "start", force |-> fc, file |-> file])
-        /\ pc' = "load" /\ UNCHANGED <<file, dev, mem, newp, lives, faults, crashes, fresh>>
+        /\ pc' = "load" /\ UNCHANGED <<file, dev, mem, newp, lives, faults, crashes, fresh, recon, reboots>>
 
 \* FileBasedPin.__init__: invalid content => PinError, the manager never reaches the device
 Load == /\ pc = "load"
         /\ IF file \in {Empty, Garbage}
            THEN /\ pc' = "stopping" /\ UNCHANGED mem
                 /\ Emit([E0("load") EXCEPT !.ok = "f"], file, dev)
-           ELSE /\ mem' = PinOf(file) /\ pc' = "unlock"
+                /\ H([a |-> "load", mode |-> "boot"])
+           ELSE /\ mem' = PinOf(file)
+                \* the device may already be in the signer app: no unlock, no PIN change at start-up
+                /\ \E sm \in (IF MaxReboots > 0 THEN {"boot", "signer"} ELSE {"boot"}) :
+                     /\ pc' = IF sm = "boot" THEN "unlock" ELSE "serve"
+                     /\ H([a |-> "load", mode |-> sm])
                 /\ Emit([E0("load") EXCEPT !.ok = "t", !.pin = PinOf(file)], file, dev)
-        /\ H([a |-> "load"])
-        /\ UNCHANGED <<file, dev, newp, force, lives, faults, crashes, fresh>>
+        /\ UNCHANGED <<file, dev, newp, force, lives, faults, crashes, fresh, recon, reboots>>
 
 NeedsChange == force \/ file = Absent
 
@@ -53,10 +59,10 @@ Unlock == /\ pc = "unlock"
           /\ IF mem = dev
              THEN /\ pc' = IF NeedsChange THEN "gen" ELSE "serve"
                   /\ Emit([E0("unlock") EXCEPT !.ok = "t"], file, dev)
-             ELSE /\ pc' = "stopping"
+             ELSE /\ pc' = IF recon THEN "serve" ELSE "stopping"    \* HSM2ProtocolError: fatal at start-up, a -905 later
                   /\ Emit([E0("unlock") EXCEPT !.ok = "f"], file, dev)
           /\ H([a |-> "unlock"])
-          /\ UNCHANGED <<file, dev, mem, newp, force, lives, faults, crashes, fresh>>
+          /\ UNCHANGED <<file, dev, mem, newp, force, lives, faults, crashes, fresh, recon, reboots>>
 
 \* start_change + new_pin: the device acknowledges, refuses (policy) or errors
 Send == /\ pc = "gen"
@@ -68,7 +74,7 @@ Send == /\ pc = "gen"
                 ELSE /\ pc' = "abort" /\ UNCHANGED dev
                      /\ Emit([E0("newpin") EXCEPT !.ok = "f", !.pin = fresh], file, dev)
              /\ H([a |-> "newpin", ans |-> ans])
-        /\ UNCHANGED <<file, mem, force, lives, faults, crashes>>
+        /\ UNCHANGED <<file, mem, force, lives, faults, crashes, recon, reboots>>
 
 \* commit_change: open("wb") truncates; write is buffered; close makes it durable
 Open == /\ pc = "open"
@@ -78,7 +84,7 @@ Open == /\ pc = "open"
            \/ /\ faults < MaxFaults /\ faults' = faults + 1 /\ pc' = "abort" /\ UNCHANGED file
               /\ Emit([E0("fs") EXCEPT !.op = "open", !.ok = "f"], file, dev)
               /\ H([a |-> "fs", op |-> "open", ok |-> "f"])
-        /\ UNCHANGED <<dev, mem, newp, force, lives, crashes, fresh>>
+        /\ UNCHANGED <<dev, mem, newp, force, lives, crashes, fresh, recon, reboots>>
 
 Write == /\ pc = "write"
          /\ \/ /\ pc' = "close" /\ UNCHANGED faults
@@ -87,7 +93,7 @@ Write == /\ pc = "write"
             \/ /\ faults < MaxFaults /\ faults' = faults + 1 /\ pc' = "abort"
                /\ Emit([E0("fs") EXCEPT !.op = "write", !.ok = "f"], file, dev)
                /\ H([a |-> "fs", op |-> "write", ok |-> "f"])
-         /\ UNCHANGED <<file, dev, mem, newp, force, lives, crashes, fresh>>
+         /\ UNCHANGED <<file, dev, mem, newp, force, lives, crashes, fresh, recon, reboots>>
 
 Close == /\ pc = "close"
          /\ \/ /\ file' = newp /\ mem' = newp /\ pc' = "stopping" /\ UNCHANGED faults
@@ -96,37 +102,43 @@ Close == /\ pc = "close"
             \/ /\ faults < MaxFaults /\ faults' = faults + 1 /\ pc' = "abort" /\ UNCHANGED <<file, mem>>
                /\ Emit([E0("fs") EXCEPT !.op = "close", !.ok = "f"], file, dev)
                /\ H([a |-> "fs", op |-> "close", ok |-> "f"])
-         /\ UNCHANGED <<dev, newp, force, lives, crashes, fresh>>
+         /\ UNCHANGED <<dev, newp, force, lives, crashes, fresh, recon, reboots>>
 
 \* abort_change, then `finally: raise HSM2ProtocolInterrupt()`
 Abort == /\ pc = "abort" /\ pc' = "stopping"
-         /\ UNCHANGED <<file, dev, mem, newp, force, lives, faults, crashes, fresh, obs, bad, hist>>
+         /\ UNCHANGED <<file, dev, mem, newp, force, lives, faults, crashes, fresh, obs, bad, hist, recon, reboots>>
 
 Stopping == /\ pc = "stopping" /\ pc' = "dead"
             /\ Emit([E0("end") EXCEPT !.outcome = "stop"], file, dev) /\ H([a |-> "end", outcome |-> "stop"])
-            /\ UNCHANGED <<file, dev, mem, newp, force, lives, faults, crashes, fresh>>
+            /\ UNCHANGED <<file, dev, mem, newp, force, lives, faults, crashes, fresh, recon, reboots>>
 
 Serve == /\ pc = "serve" /\ pc' = "serving"
          /\ Emit([E0("end") EXCEPT !.outcome = "serve"], file, dev) /\ H([a |-> "end", outcome |-> "serve"])
-         /\ UNCHANGED <<file, dev, mem, newp, force, lives, faults, crashes, fresh>>
+         /\ UNCHANGED <<file, dev, mem, newp, force, lives, faults, crashes, fresh, recon, reboots>>
 
 \* the process dies at a step boundary: volatile state is lost, durable state stays as it is
 Crash == /\ pc \in {"load", "unlock", "gen", "open", "write", "close", "abort", "stopping", "serve"}
          /\ crashes < MaxCrashes /\ crashes' = crashes + 1 /\ pc' = "dead"
          /\ Emit([E0("end") EXCEPT !.outcome = "crash"], file, dev)
          /\ H([a |-> "crash", at |-> pc])
-         /\ UNCHANGED <<file, dev, mem, newp, force, lives, faults, fresh>>
+         /\ UNCHANGED <<file, dev, mem, newp, force, lives, faults, fresh, recon, reboots>>
 
 Restart == /\ pc \in {"dead", "serving"} /\ lives < MaxLives /\ lives' = lives + 1
-           /\ pc' = "boot" /\ mem' = NoPin /\ newp' = NoPin
-           /\ UNCHANGED <<file, dev, force, faults, crashes, fresh, obs, bad, hist>>
+           /\ pc' = "boot" /\ mem' = NoPin /\ newp' = NoPin /\ recon' = FALSE
+           /\ UNCHANGED <<file, dev, force, faults, crashes, fresh, obs, bad, hist, reboots>>
 
-Next == Boot \/ Load \/ Unlock \/ Send \/ Open \/ Write \/ Close \/ Abort \/ Stopping \/ Serve
+\* while serving: the link fails, the device comes back in the bootloader, the next request's
+\* ensure_connection runs the whole bring-up again (same process, same in-memory PIN object)
+Reboot == /\ pc = "serving" /\ reboots < MaxReboots /\ reboots' = reboots + 1
+          /\ pc' = "unlock" /\ recon' = TRUE /\ H([a |-> "reboot"])
+          /\ UNCHANGED <<file, dev, mem, newp, force, lives, faults, crashes, fresh, obs, bad>>
+
+Next == Reboot \/ Boot \/ Load \/ Unlock \/ Send \/ Open \/ Write \/ Close \/ Abort \/ Stopping \/ Serve
         \/ Crash \/ Restart
 Spec == Init /\ [][Next]_vars
 
 NoNewViolation == bad = ""
 NoWindow       == ~obs.win          \* expected to be violated: the known finding
 Terminal == pc \in {"dead", "serving"} /\ lives = MaxLives
-View == <<file, dev, mem, newp, pc, force, lives, faults, crashes, fresh, obs, bad>>
+View == <<file, dev, mem, newp, pc, force, lives, faults, crashes, fresh, obs, bad, recon, reboots>>
 =============================================================================
